@@ -341,6 +341,12 @@ func keySplitRule(c *Ctx, p *Prog, rule string, checkDirection bool) {
 }
 
 func runC06(c *Ctx) {
+	if !importing {
+		// what an endpoint accepts: a decoder that loses or re-reads bytes at a segment boundary rejects a
+		// conforming stream (C01's Decode rules); the padding lengths are drawn by csrand (C12's range rules)
+		importObls(c, "C01", runC01, "X01", func(k string) bool { return containsAny(k, "transports/obfs4/framing") })
+		importObls(c, "C12", runC12, "X12", func(k string) bool { return containsAny(k, "common/csrand") })
+	}
 	// "mark/MAC with epoch hour": which hour the server's reply and the client's verification are bound
 	// to is decided by C04's hour rules (R2 offsets, R5 store/use), which are part of the wire format
 	// too; imported as RH2/RH5
@@ -372,6 +378,7 @@ func runC06(c *Ctx) {
 	c06SeedFrame(c, p)
 	c06Cert(c, p)
 	c06ParserDecides(c, p, "R7")
+	parserVerdictAfterSearch(c, p, "R7")
 }
 
 // ---- R3 ---------------------------------------------------------------------------
@@ -693,6 +700,7 @@ func c06Length(c *Ctx, p *Prog) {
 // ---- R4 ---------------------------------------------------------------------------
 
 func c06Drbg(c *Ctx, p *Prog, rule string) {
+	drbgGivenSeedUsed(c, p, rule)
 	nh := p.Func("common/drbg:NewHashDrbg")
 	nbk := p.Func("common/drbg:(*HashDrbg).NextBlock")
 	ob := c.Obl(rule, "common/drbg:NewHashDrbg#seed-layout", "SipHash-2-4 is keyed with seed[0:16] and the OFB register starts as seed[16:24]")
@@ -1343,7 +1351,10 @@ func c06ParserDecides(c *Ctx, p *Prog, rule string) {
 								for _, r2 := range *ia.Referrers() {
 									if st, ok := r2.(*ssa.Store); ok {
 										w := st.Val
-										if mi, ok := w.(*ssa.MakeInterface); ok {
+										switch mi := w.(type) {
+										case *ssa.MakeInterface:
+											w = mi.X
+										case *ssa.ChangeInterface:
 											w = mi.X
 										}
 										if isErrorType(w.Type()) && !isNilConst(w) && fromCall(w, map[ssa.Value]bool{}) {
